@@ -384,6 +384,58 @@ def extends_family():
     return out
 
 
+
+def self_family():
+    """blocks that render themselves again through self.name() (direct and mutual), the recursive call wrapped in every
+    scoped construct, bounded by a chain in the context; after every level the level's own variables are shown
+    -> (label, templates, context, expected)   [PYTHON TEST ORACLE]"""
+    def chain(d):
+        n = None
+        for i in range(d, -1, -1):
+            n = {"v": "abcdef"[i], "child": n}
+        return n
+    calls = [("emit", "{{ self.%s() }}"), ("concat", "{{ self.%s() ~ '' }}"), ("set", "{%% set q = self.%s() %%}{{ q }}")]
+    def wrappers(selfcall):
+        rb = "{% with node = node.child %}(" + selfcall + "){% endwith %}"
+        return [("with", rb),
+                ("for", "{% for node in [node.child] %}(" + selfcall + "){% endfor %}"),
+                ("forelse", "{% for x in [] %}{% else %}" + rb + "{% endfor %}"),
+                ("setblock", "{% set z %}" + rb + "{% endset %}{{ z }}"),
+                ("filter", "{% filter replace('#', '#') %}" + rb + "{% endfilter %}"),
+                ("autoescape", "{% autoescape true %}" + rb + "{% endautoescape %}"),
+                ("macro", "{% macro mc(n) %}{% with node = n %}(" + selfcall + "){% endwith %}{% endmacro %}{{ mc(node.child) }}"),
+                ("callblock", "{% macro wr() %}{{ caller() }}{% endmacro %}{% call wr() %}" + rb + "{% endcall %}"),
+                ("if_with_for", "{% for i in [1] %}{% if true %}" + rb + "{% endif %}{% endfor %}")]
+    def body(tag, wsrc):
+        return (tag + "{{ node.v }}{% set mark = node.v %}{% if node.child %}" + wsrc + "{% endif %}~{{ node.v }}{{ mark }}")
+    def expect(tags, n, k=0):
+        t = tags[k % len(tags)]
+        inner = "(" + expect(tags, n["child"], k + 1) + ")" if n["child"] else ""
+        return t + n["v"] + inner + "~" + n["v"] + n["v"]
+    out = []
+    tail = "|{{ node.v }}{{ mark is defined }}|END"
+    for cl, cs in calls:
+        for wl, wsrc in wrappers(cs % "tree"):
+            for d in (0, 1, 3):
+                n = chain(d)
+                src = "{% block tree %}" + body("", wsrc) + "{% endblock %}" + tail
+                out.append(("self:direct:%s:%s:%d" % (cl, wl, d), {"main": src}, {"node": n}, expect([""], n) + "|aFalse|END"))
+        for wl, wsrc in wrappers(cs % "tree")[:4]:
+            n = chain(2)
+            child = "{% extends 'self_lay' %}{% block tree %}" + body("", wsrc) + "{% endblock %}"
+            out.append(("self:child:%s:%s" % (cl, wl), {"main": child, "self_lay": "<{% block tree %}{% endblock %}>" + tail}, {"node": n},
+                        "<" + expect([""], n) + ">|aFalse|END"))
+        # mutual recursion: a -> self.b() -> self.a()
+        wa, wb = wrappers(cs % "b"), wrappers(cs % "a")
+        for k in range(len(wa)):
+            for d in (1, 2, 3):
+                n = chain(d)
+                src = ("{% block a %}" + body("A", wa[k][1]) + "{% endblock %}{% if false %}{% block b %}" + body("B", wb[(k + 1) % len(wb)][1])
+                       + "{% endblock %}{% endif %}" + tail)
+                out.append(("self:mutual:%s:%s:%d" % (cl, wa[k][0], d), {"main": src}, {"node": n}, expect(["A", "B"], n) + "|aFalse|END"))
+    return out
+
+
 def fixture_cases():
     """-> (name, source, context or None, aux templates): the repository's fixtures with their own context (first part of
     the file) and the templates under inputs/refs they include / extend"""
@@ -456,7 +508,7 @@ def main():
         "and its reader of the PopLoopFrame arm of vm/mod.rs (what the VM pops when a recursion call returns; fails loudly on unknown syntax) - unverified glue",
         "the abstract shape machine of C05/Model.v (edges + call_edges) is the semantics the theorems speak about; its agreement with eval_impl is CHECKED step by step on every traced render "
         "(shape observer hook + extracted replayer C05/Trace.v), not proved; the hook (feature verif_hooks) reports depths only",
-        "macro, block, include and super() calls are summarised as balanced calls (each callee stream / entry point is checked separately; every activation is traced separately)",
+        "macro, block, self.name(), include and super() calls are summarised as balanced calls in the abstract machine (each callee stream / entry point is checked separately); that summary is CHECKED on every traced nested activation: entry state vs. the calling instruction, and on return frames / captures / auto-escape entries as before the call and operands = before - arguments + result (Python comparison of the hook's observations)",
         "C05/RecLoop.v is an executable oracle (a fold over the tree), not a theorem about the engine"]
     chk.assumptions = ["the annotation inferencer is unverified; only its result is trusted through check_rec",
                        "typing a LoadConst(0) as an empty counted bundle is sound; the translator chooses where (filtered-loop accumulator)",
@@ -546,6 +598,11 @@ def main():
             aux = dict(MT_AUX); aux.update({k: v for k, v in tm.items() if k != "main"})
             add("mt:" + label, tm["main"], ctxs=[{}], expect=[("ok", exp)], aux=aux, sentinel="|END")
             hist["mt_family_" + label.split(":")[0]] += 1
+        # blocks that render themselves again through self.name() (Python test oracle)
+        for label, tm, ctx, exp in self_family():
+            aux = {k: v for k, v in tm.items() if k != "main"}
+            add("mt:" + label, tm["main"], ctxs=[ctx], expect=[("ok", exp)], aux=aux, sentinel="|END")
+            hist["mt_family_self_" + label.split(":")[1]] += 1
         for name, src, ctx, refs in fixture_cases():
             add("fixture:" + name, src, ctxs=[ctx] if ctx is not None else [], aux=refs, sentinel=None, main=name, dynamic=False)
     tlog("templates: %d" % len(T))
@@ -645,6 +702,7 @@ def main():
                 elif want is not None and want != ("ok", rr["ok"]):
                     what = ("a recursive loop did not render the fold over the tree (operand, capture or escape state not restored around a recursion call)" if t["name"].startswith("rec:")
                             else "variable scope not as before a scoped construct (sentinel variable after the construct)" if t["name"].startswith("mt:scope")
+                            else "a block that renders itself again through self.name() does not leave the variables / scopes of the outer rendering as they were" if t["name"].startswith("mt:self")
                             else "output of a template that extends / imports / includes an extending template went to the wrong target (capture state across the hand-over to the parent)" if t["name"].startswith("mt:ext")
                             else "auto-escape state not restored after a construct")
                     dyn_bad.append((ti, ci, rel, what, "got %r expected %r" % (rr["ok"][-200:], want)))
@@ -676,7 +734,7 @@ def main():
             tr_idx.append((ti, ci))
     env = dict(ENV); env["MJVERIF_WATCHDOG_MS"] = "8000"
     probe = run_json([bin_path("c05_trace")], tr_reqs[:1], env=env) if tr_reqs else []
-    trace_bad, proto_bad = [], []
+    trace_bad, proto_bad, exit_bad = [], [], []
     if probe and probe[0].get("hook") is False:
         chk.notes["trace"] = "the tree under test has no shape observer (hook commit `hook: verif_hooks shape observer` not applied): the step-by-step tie of the abstract machine to eval_impl was NOT run"
         hist["trace_hook_missing"] = 1
@@ -709,6 +767,27 @@ def main():
                     hist["trace_entry_protocol_" + pins["op"]] += 1
                     if (first[2], first[3]) != want:
                         proto_bad.append((ti, ci, ai, pins, b, first, want))
+            # exit side, for EVERY nested evaluation (macro, block, self.name(), super(), include, callbacks): when the parent runs
+            # again it is at the instruction after the call with the frame, capture and auto-escape depths it had before the
+            # call instruction, and its operand stack is the one before minus the arguments plus the result - the "balanced
+            # call" summary the abstract machine uses for these instructions, checked on the observed run
+            for ai, (b, a) in enumerate(zip(r.get("born") or [], r.get("after") or [])):
+                if not b or not a:
+                    continue
+                pins = r["streams"][b[1]][b[2]]
+                hist["trace_exit_protocol"] += 1
+                want_stk = None
+                try:
+                    tag, x, y = absinstr.one(pins, False)
+                    if tag == 0:
+                        want_stk = b[3] - x + y
+                    elif tag == 20 and x == 0:
+                        want_stk = b[3]
+                except Exception:
+                    pass
+                ok = a[2:] == b[4:7] and (a[0] != b[2] + 1 or want_stk is None or a[1] == want_stk)
+                if not ok:
+                    exit_bad.append((ti, ci, ai, pins, b, a, want_stk))
             # an `extends` hands over to the parent's instructions in the same activation: it must start from the entry state
             for ai, act in enumerate(r["acts"]):
                 for k in range(1, len(act)):
@@ -780,6 +859,7 @@ def main():
     chk.cov["dynamic_failures"] = len(dyn_bad)
     chk.cov["trace_failures"] = len(trace_bad)
     chk.cov["entry_protocol_failures"] = len(proto_bad)
+    chk.cov["exit_protocol_failures"] = len(exit_bad)
     # ---- verdicts ----
     seen = set()
     def replay_of(ti, ci=None):
@@ -833,6 +913,13 @@ def main():
                      "note": "observations are [pc, operand stack, context frames, open captures, auto-escape entries]; a block / super() body must run one frame above its caller, an include on the caller's frame, "
                              "the parent template of an `extends` from the state the activation started in"})
         chk.violation("a nested evaluation does not start in the state the construct promises (scope / capture depth at the entry of a block, super(), include or at the hand-over of extends)", info)
+    for ti, ci, ai, pins, b, a, want_stk in exit_bad[:5]:
+        info = replay_of(ti, ci)
+        info.update({"activation": ai, "called_by": pins, "observation_before_the_call": b[2:], "observation_after_the_return": a, "expected_operand_stack": want_stk,
+                     "family": T[ti]["name"],
+                     "note": "observations are [pc, operand stack, context frames, open captures, auto-escape entries]; a nested evaluation (block, self.name(), super(), macro, include) must give "
+                             "back the caller's frames, captures and auto-escape entries exactly, and its operands minus the arguments plus the result"})
+        chk.violation("a nested evaluation does not give back the state it was called in (scope / capture / auto-escape depth after a block, self.name(), super(), macro or include returned)", info)
     if not chk.violations and not proofs_ok:
         chk.violation("proof obligations of C05 do not check", {"theorem_or_correspondence": chk.proof["problems"]}, True)
     chk.finish()
